@@ -621,7 +621,14 @@ pub fn gen_param(rng: &mut Rng) -> V {
             let n = rng.usize(33);
             rng.ascii(n)
         }),
-        6 => (*rng.pick(&[-7i128, -8]), (*rng.pick(&["public-keys", "Public-Key", "public-ke", "", "publickey"])).to_string()),
+        6 => (
+            *rng.pick(&[-7i128, -8]),
+            (*rng.pick(&[
+                "public-keys", "Public-Key", "public-ke", "", "publickey", "public-key\u{0}", "public-key\u{0}\u{0}\u{0}", "public-key ", " public-key",
+                "public-key\n", "\u{0}public-key", "public-key\u{feff}", "PUBLIC-KEY", "public_key", "public-key-", "public-key/",
+            ]))
+            .to_string(),
+        ),
         _ => ((rng.u64() as i32) as i128, "public-key".into()),
     };
     V::M(vec![(V::text("alg"), V::int(alg)), (V::text("type"), V::text(&ty))])
